@@ -321,6 +321,19 @@ def fault_jobs(tier):
         js.append(fault_job('multipitch.metrics[estimate %s]' % kind, b_mp(kind), lambda inp: MP.metrics(inp['t'], inp['good'], inp['t'].copy(), inp['fr']),
                             ['multipitch.validate', 'util.validate_frequencies']))
 
+    # (the faulty frame is the last one of the longer annotation: the other annotation has no frame at that index)
+    def b_mp_tail(ctx):
+        f = ctx.real('f')
+        ctx.assume(S._lor(S._land(f > 0, f < 20), f > 5000))
+        t = C.events(ctx, 't', 2, strict=True)
+        return dict(t=t, fr=[np.array([440.0]), S.array([f])], t1=t[:1].copy(), good=[np.array([440.0])])
+    js.append(fault_job('multipitch.metrics[reference frequency out of range, in a frame beyond the estimate]', b_mp_tail,
+                        lambda inp: MP.metrics(inp['t'], inp['fr'], inp['t1'], inp['good']), ['multipitch.validate', 'util.validate_frequencies']))
+    js.append(fault_job('multipitch.metrics[estimate frequency out of range, in a frame beyond the reference]', b_mp_tail,
+                        lambda inp: MP.metrics(inp['t1'], inp['good'], inp['t'], inp['fr']), ['multipitch.validate', 'util.validate_frequencies']))
+    js.append(fault_job('multipitch.metrics[estimate frequency out of range, empty reference]', b_mp_tail,
+                        lambda inp: MP.metrics(inp['t'][:0].copy(), [], inp['t'], inp['fr']), ['multipitch.validate', 'util.validate_frequencies']))
+
     # --- separation.validate: silent / mis-shaped sources (symbolic non-zero samples, concrete shapes)
     import mir_eval.separation as SEP
 
